@@ -649,3 +649,306 @@ Proof.
       eapply log_ext_trans; [apply log_ext_nm_weak; exact L3|]. eapply log_ext_trans; [exact L4|exact L5].
 Qed.
 End Aligned.
+
+(* ------------------------------------------------------------------------------------- *)
+(* C11: os_alloc_aligned_spec and os_free_inverse                                          *)
+(* ------------------------------------------------------------------------------------- *)
+Lemma land_lt_W64 a b : a < W64 -> N.land a b < W64.
+Proof.
+  intros H. destruct (N.eq_dec (N.land a b) 0) as [->|NZ]; [rewrite W64_val; lia|].
+  rewrite W64_pow. apply N.log2_lt_pow2; [lia|].
+  pose proof (N.log2_land a b) as L.
+  assert (a <> 0) by (intros ->; rewrite N.land_0_l in NZ; congruence).
+  assert (N.log2 a < 64) by (apply N.log2_lt_pow2; [lia|rewrite <- W64_pow; assumption]). lia.
+Qed.
+
+Lemma align_up_lt sz a : align_up sz a < W64.
+Proof.
+  unfold align_up. destruct (N.land a (wsub a 1) =? 0); [apply land_lt_W64; apply wrap_lt|apply wrap_lt].
+Qed.
+
+Lemma good_size_lt size : size < W64 -> os_good_alloc_size size < W64.
+Proof.
+  intros H. unfold os_good_alloc_size.
+  match goal with |- (if ?c then _ else _) < _ => destruct c end; [assumption|apply align_up_lt].
+Qed.
+
+Lemma good_size_ge size : size < W64 -> size <= os_good_alloc_size size.
+Proof.
+  intros H. unfold os_good_alloc_size.
+  set (asz := if size <? 512 * 1024 then os_page_size_default else if size <? 2 * 1024 * 1024 then 64 * 1024
+              else if size <? 8 * 1024 * 1024 then 256 * 1024 else if size <? 32 * 1024 * 1024 then 1024 * 1024 else 4 * 1024 * 1024).
+  assert (A : 0 < asz /\ asz <= 4 * 1024 * 1024).
+  { unfold asz. change os_page_size_default with 4096.
+    destruct (size <? 512 * 1024); [lia|]. destruct (size <? 2 * 1024 * 1024); [lia|].
+    destruct (size <? 8 * 1024 * 1024); [lia|]. destruct (size <? 32 * 1024 * 1024); lia. }
+  destruct (SIZE_MAX_ - asz <=? size) eqn:E; [lia|]. apply N.leb_gt in E.
+  assert (SM : SIZE_MAX_ = 18446744073709551615) by reflexivity. rewrite SM in E.
+  apply align_up_props; rewrite ?W64_val; lia.
+Qed.
+
+(* a madvise / mprotect that starts inside the fresh mapping touches nothing outside it *)
+Lemma touch_madvise oracle o o1 p sz addr len adv o2 b :
+  holds_fresh o o1 p sz -> p <= addr -> addr < p + sz ->
+  sys_madvise oracle o1 addr len adv = (o2, b) -> holds_fresh o o2 p sz /\ log_ext_nm o1 o2.
+Proof.
+  intros (H0 & H1 & H2 & H3) A1 A2 M. unfold sys_madvise in M.
+  assert (LN : forall c, c_kind c = KMadvise -> log_ext_nm o1 (step o1 (os_k o2) c)).
+  { intros c Hc. exists [c]. split; [reflexivity|]. cbn. unfold is_munmap. rewrite Hc. reflexivity. }
+  destruct (a_ok (oracle (os_seq o1)) && (addr mod PAGE =? 0) && range_mapped (os_k o1) addr (len_up len)) eqn:V;
+    injection M as <- <-; cbn [os_k step k_maps k_at].
+  - apply andb_prop in V as [_ R]. unfold range_mapped in R. apply existsb_exists in R as (m & Hm & I).
+    unfold inside in I. apply andb_prop in I as [I1 I2]. apply N.leb_le in I1, I2.
+    split; [|eexists (cons _ nil); split; [reflexivity|reflexivity]].
+    split; [assumption|]. split; [assumption|]. split; [cbn [os_k step k_maps]; assumption|].
+    intros a Ha. cbn [os_k step k_at]. unfold set_range. destruct (in_range addr (len_up len) a) eqn:R2; [|apply H3; exact Ha].
+    exfalso. apply in_range_spec in R2. apply in_range_nspec in Ha.
+    rewrite H2 in Hm. destruct Hm as [<-|Hm]; cbn [m_base m_len] in *; [lia|].
+    specialize (H1 m Hm). assert (overlaps m p sz = true) by (apply overlaps_spec; lia). congruence.
+  - split; [|eexists (cons _ nil); split; [reflexivity|reflexivity]]. split; [assumption|]. split; [assumption|]. split; assumption.
+Qed.
+
+Lemma touch_mprotect oracle o o1 p sz addr len rw o2 b :
+  holds_fresh o o1 p sz -> p <= addr -> addr < p + sz ->
+  sys_mprotect oracle o1 addr len rw = (o2, b) -> holds_fresh o o2 p sz /\ log_ext_nm o1 o2.
+Proof.
+  intros (H0 & H1 & H2 & H3) A1 A2 M. unfold sys_mprotect in M.
+  destruct (a_ok (oracle (os_seq o1)) && (addr mod PAGE =? 0) && range_mapped (os_k o1) addr (len_up len)) eqn:V;
+    injection M as <- <-; cbn [os_k step k_maps k_at].
+  - apply andb_prop in V as [_ R]. unfold range_mapped in R. apply existsb_exists in R as (m & Hm & I).
+    unfold inside in I. apply andb_prop in I as [I1 I2]. apply N.leb_le in I1, I2.
+    split; [|eexists (cons _ nil); split; [reflexivity|reflexivity]].
+    split; [assumption|]. split; [assumption|]. split; [cbn [os_k step k_maps]; assumption|].
+    intros a Ha. cbn [os_k step k_at]. unfold set_range. destruct (in_range addr (len_up len) a) eqn:R2; [|apply H3; exact Ha].
+    exfalso. apply in_range_spec in R2. apply in_range_nspec in Ha.
+    rewrite H2 in Hm. destruct Hm as [<-|Hm]; cbn [m_base m_len] in *; [lia|].
+    specialize (H1 m Hm). assert (overlaps m p sz = true) by (apply overlaps_spec; lia). congruence.
+  - split; [|eexists (cons _ nil); split; [reflexivity|reflexivity]]. split; [assumption|]. split; [assumption|]. split; assumption.
+Qed.
+
+Section Inverse.
+Variable cfg : oscfg.
+Variable oracle : nat -> answer.
+
+(* C11 os_alloc_aligned_spec: the address is aligned, [p, p+size) lies inside ONE fresh mapping [p, p+len_up good),
+   and the memid records the base and the size of that mapping *)
+Lemma os_alloc_aligned_spec o size alignment commit al o1 p m :
+  k_wf (os_k o) -> size < W64 -> alignment < W64 ->
+  os_alloc_aligned cfg oracle o size alignment commit al = (o1, Some (p, m)) ->
+  munmaps_ok (os_log o1) = true ->
+  let good := os_good_alloc_size size in
+  p mod (align_up alignment PAGE) = 0 /\ 0 < p /\ 0 < size /\ size <= good /\ good <= len_up good /\
+  p + len_up good <= ADDR_LIMIT /\
+  m = memid_create_os commit true false p good /\
+  holds_fresh o o1 p (len_up good) /\ log_ext o o1.
+Proof.
+  intros W Hs Ha E Hm. cbv zeta. unfold os_alloc_aligned in E.
+  destruct (size =? 0) eqn:Z; [discriminate|]. apply N.eqb_neq in Z.
+  destruct (os_prim_alloc_aligned cfg oracle o (os_good_alloc_size size) (align_up alignment PAGE) commit al) as [ox r] eqn:A.
+  destruct r as [[p' base]|]; [|discriminate]. injection E as <- <- <-.
+  pose proof (os_prim_alloc_aligned_spec cfg oracle o _ _ commit al ox p' base W (good_size_lt size Hs) (align_up_lt _ _) A Hm)
+    as (-> & S2 & S3 & S4 & S5 & S6 & S7 & S8 & S9 & _).
+  pose proof (good_size_ge size Hs) as G. pose proof (len_up_ge (os_good_alloc_size size)) as (G2 & _).
+  split; [assumption|]. split; [assumption|]. split; [lia|]. split; [assumption|]. split; [assumption|]. split; [assumption|].
+  split; [|split; assumption].
+  rewrite wsub_small by lia. rewrite N.sub_diag. rewrite wadd_small by (pose proof (good_size_lt size Hs); lia).
+  rewrite N.add_0_r. reflexivity.
+Qed.
+
+(* freeing a whole fresh mapping through _mi_os_free_ex *)
+Lemma os_free_ex_fresh o o1 p good addr fsize sc o2 commit :
+  k_wf (os_k o) -> holds_fresh o o1 p (len_up good) -> 0 < p -> 0 < good -> good < W64 ->
+  addr < W64 -> p <= addr ->
+  os_free_ex oracle o1 addr fsize sc (memid_create_os commit true false p good) = o2 ->
+  munmaps_ok (os_log o2) = true -> k_eq (os_k o) (os_k o2).
+Proof.
+  intros W HF Hp Hg Hgw Haw Hpa E Hm. unfold os_free_ex, memid_create_os in E. cbn [mem_kind memkind_is_os mem_size mem_base] in E.
+  assert (Z : (good =? 0) = false) by (apply N.eqb_neq; lia). rewrite Z in E.
+  assert (B : (if negb (p =? 0) && negb (p =? addr) then (p, good) else (addr, good)) = (p, good)).
+  { destruct (N.eq_dec p addr) as [<-|Hne].
+    - rewrite N.eqb_refl. rewrite andb_false_r. reflexivity.
+    - assert (X1 : (p =? 0) = false) by (apply N.eqb_neq; lia). assert (X2 : (p =? addr) = false) by (apply N.eqb_neq; assumption).
+      rewrite X1, X2. reflexivity. }
+  rewrite B in E.
+  destruct (os_prim_free_ok oracle o1 p good o2 Hp Hg E Hm) as [M _].
+  eapply unmap_holds; [exact W|exact HF|reflexivity|exact M].
+Qed.
+
+(* C11 os_free_inverse, _mi_os_alloc_aligned *)
+Lemma os_free_inverse_aligned o size alignment commit al o1 p m fsize sc o2 :
+  k_wf (os_k o) -> size < W64 -> alignment < W64 ->
+  os_alloc_aligned cfg oracle o size alignment commit al = (o1, Some (p, m)) ->
+  os_free_ex oracle o1 p fsize sc m = o2 -> munmaps_ok (os_log o2) = true ->
+  k_eq (os_k o) (os_k o2).
+Proof.
+  intros W Hs Ha A F Hm.
+  assert (L12 : log_ext o1 o2).
+  { unfold os_free_ex in F. destruct (memkind_is_os (mem_kind m)); [|subst; apply log_ext_refl].
+    destruct (if negb (mem_base m =? 0) && negb (mem_base m =? p) then _ else _) as [b c]. unfold os_prim_free in F.
+    destruct ((b =? 0) || (c =? 0)); [subst; apply log_ext_refl|]. unfold prim_free in F.
+    destruct (sys_munmap oracle o1 b c) as [ox bb] eqn:M. cbn in F. subst ox.
+    apply sys_munmap_spec in M as (_ & L & _). eapply log_ext_cons. exact L. }
+  pose proof (munmaps_ok_ext o1 o2 L12 Hm) as Hm1.
+  pose proof (os_alloc_aligned_spec o size alignment commit al o1 p m W Hs Ha A Hm1) as (S1 & S2 & S3 & S4 & S5 & S6 & -> & S8 & S9).
+  cbv zeta in *. pose proof (good_size_lt size Hs) as GL.
+  eapply (os_free_ex_fresh o o1 p (os_good_alloc_size size) p fsize sc o2 commit); try eassumption; try lia.
+  rewrite ADDR_LIMIT_val in S6. rewrite W64_val. lia.
+Qed.
+
+(* C11 os_free_inverse, _mi_os_alloc *)
+Lemma os_free_inverse_alloc o size o1 p m fsize sc o2 :
+  k_wf (os_k o) -> size < W64 ->
+  os_alloc cfg oracle o size = (o1, Some (p, m)) ->
+  os_free_ex oracle o1 p fsize sc m = o2 -> munmaps_ok (os_log o2) = true ->
+  k_eq (os_k o) (os_k o2).
+Proof.
+  intros W Hs A F Hm. unfold os_alloc in A. destruct (size =? 0); [discriminate|].
+  destruct (os_prim_alloc cfg oracle o (os_good_alloc_size size) 0 true false) as [ox r] eqn:PA.
+  destruct r as [p'|]; [|discriminate]. injection A as <- <- <-.
+  apply os_prim_alloc_spec in PA as [_ (P1 & P2 & P3 & P4 & HF)].
+  pose proof (good_size_lt size Hs) as GL.
+  eapply (os_free_ex_fresh o ox p' (os_good_alloc_size size) p' fsize sc o2 true); try eassumption; try lia.
+  rewrite ADDR_LIMIT_val in P4. rewrite W64_val. pose proof (len_up_ge (os_good_alloc_size size)). lia.
+Qed.
+
+(* C11 os_free_inverse, _mi_os_alloc_aligned_at_offset (sizes and alignment within the address space, the
+   preconditions asserted by the C) *)
+Lemma os_free_inverse_at_offset o size alignment offset commit al o1 p m fsize sc o2 :
+  k_wf (os_k o) -> size < 2 ^ 62 -> alignment < 2 ^ 62 -> offset <= MI_SEGMENT_SIZE ->
+  os_alloc_aligned_at_offset cfg oracle o size alignment offset commit al = (o1, Some (p, m)) ->
+  os_free_ex oracle o1 p fsize sc m = o2 -> munmaps_ok (os_log o2) = true ->
+  k_eq (os_k o) (os_k o2).
+Proof.
+  intros W Hs Ha Ho A F Hm. rewrite P62 in Hs, Ha.
+  unfold os_alloc_aligned_at_offset in A.
+  destruct (MI_SEGMENT_SIZE <? offset); [discriminate|].
+  destruct (offset =? 0) eqn:Z0.
+  { eapply os_free_inverse_aligned; try eassumption; rewrite W64_val; lia. }
+  apply N.eqb_neq in Z0.
+  set (extra := wsub (align_up offset alignment) offset) in *.
+  destruct (os_alloc_aligned cfg oracle o (wadd size extra) alignment commit al) as [oa r] eqn:AA.
+  destruct r as [[start m']|]; [|discriminate]. injection A as E1 E2 E3. subst p m.
+  set (od := if commit && (PAGE <? extra) then fst (os_decommit cfg oracle oa start extra) else oa) in *.
+  subst o1.
+  (* the log: oa -> od (decommit) -> o2 (free) *)
+  assert (L12 : log_ext od o2).
+  { unfold os_free_ex in F. destruct (memkind_is_os (mem_kind m')); [|subst; apply log_ext_refl].
+    destruct (if negb (mem_base m' =? 0) && negb (mem_base m' =? wadd start extra) then _ else _) as [b c]. unfold os_prim_free in F.
+    destruct ((b =? 0) || (c =? 0)); [subst; apply log_ext_refl|]. unfold prim_free in F.
+    destruct (sys_munmap oracle od b c) as [ox bb] eqn:M. cbn in F. subst ox.
+    apply sys_munmap_spec in M as (_ & L & _). eapply log_ext_cons. exact L. }
+  pose proof (munmaps_ok_ext od o2 L12 Hm) as Hm1.
+  (* extra < alignment *)
+  assert (SEG : MI_SEGMENT_SIZE = 33554432) by reflexivity. rewrite SEG in Ho.
+  assert (Hex : extra < W64) by (apply wsub_lt; apply align_up_lt).
+  assert (Hsw : wadd size extra < W64) by apply wrap_lt.
+  (* decommit: madvise (+ mprotect) at `start`, inside the fresh mapping *)
+  assert (D : forall sz, holds_fresh o oa start sz -> start mod PAGE = 0 -> 0 < start -> start + sz <= ADDR_LIMIT ->
+              holds_fresh o od start sz /\ log_ext oa od).
+  { intros sz HF Hsm Hs0 Hlim. unfold od. destruct (commit && (PAGE <? extra)); [|split; [assumption|apply log_ext_refl]].
+    unfold os_decommit, os_decommit_ex.
+    destruct (os_page_align_area true start extra) as [st cs] eqn:PA.
+    destruct (cs =? 0) eqn:C0; [cbn; split; [assumption|apply log_ext_refl]|]. apply N.eqb_neq in C0.
+    assert (Hst : st = start /\ start < start + sz).
+    { destruct HF as (F0 & _). split; [|lia]. unfold os_page_align_area in PA.
+      destruct ((extra =? 0) || (start =? 0)); [injection PA as <- <-; congruence|].
+      rewrite ADDR_LIMIT_val, PAGE_val in *.
+      rewrite (align_up_spec start 4096) in PA by (rewrite ?W64_val; lia).
+      match type of PA with (if ?c then _ else _) = _ => destruct c end; injection PA as <- <-; [congruence|]. lia. }
+    destruct Hst as [-> Hlt].
+    unfold prim_decommit. destruct (sys_madvise oracle oa start cs MADV_DONTNEED_) as [o3 b3] eqn:M3.
+    destruct (touch_madvise oracle o oa start sz start cs MADV_DONTNEED_ o3 b3 HF (N.le_refl _) Hlt M3) as [HF3 L3].
+    destruct (decommit_protects cfg); cbn [fst].
+    - destruct (sys_mprotect oracle o3 start cs false) as [o4 b4] eqn:M4. cbn [fst].
+      destruct (touch_mprotect oracle o o3 start sz start cs false o4 b4 HF3 (N.le_refl _) Hlt M4) as [HF4 L4].
+      split; [assumption|]. eapply log_ext_trans; apply log_ext_nm_weak; eassumption.
+    - split; [assumption|apply log_ext_nm_weak; assumption]. }
+  assert (Hma : munmaps_ok (os_log oa) = true -> True) by auto.
+  (* the allocation *)
+  assert (Hmoa : munmaps_ok (os_log oa) = true).
+  { (* oa's log is a prefix of od's = o1's *)
+    unfold od in Hm1. destruct (commit && (PAGE <? extra)); [|exact Hm1].
+    unfold os_decommit, os_decommit_ex in Hm1. destruct (os_page_align_area true start extra) as [st cs].
+    destruct (cs =? 0); [exact Hm1|]. unfold prim_decommit in Hm1.
+    destruct (sys_madvise oracle oa st cs MADV_DONTNEED_) as [o3 b3] eqn:M3.
+    apply sys_madvise_spec in M3 as (_ & _ & (c3 & L3 & _) & _).
+    destruct (decommit_protects cfg); cbn [fst] in Hm1.
+    - destruct (sys_mprotect oracle o3 st cs false) as [o4 b4] eqn:M4. cbn [fst] in Hm1.
+      apply sys_mprotect_spec in M4 as (_ & _ & (c4 & L4 & _) & _).
+      eapply munmaps_ok_ext; [|exact Hm1]. eapply log_ext_trans; eapply log_ext_cons; eassumption.
+    - eapply munmaps_ok_ext; [|exact Hm1]. eapply log_ext_cons; eassumption. }
+  pose proof (os_alloc_aligned_spec o (wadd size extra) alignment commit al oa start m' W Hsw ltac:(rewrite W64_val; lia) AA Hmoa)
+    as (S1 & S2 & S3 & S4 & S5 & S6 & -> & S8 & S9).
+  cbv zeta in *.
+  assert (Hsp : start mod PAGE = 0).
+  { pose proof (os_prim_alloc_aligned_spec cfg oracle o (os_good_alloc_size (wadd size extra)) (align_up alignment PAGE) commit al) as X.
+    unfold os_alloc_aligned in AA. destruct (wadd size extra =? 0); [discriminate|].
+    destruct (os_prim_alloc_aligned cfg oracle o (os_good_alloc_size (wadd size extra)) (align_up alignment PAGE) commit al) as [ox r] eqn:PA.
+    destruct r as [[p' base]|]; [|discriminate]. injection AA as Ea Eb Ec. subst ox p'.
+    destruct (X oa start base W (good_size_lt _ Hsw) (align_up_lt _ _) eq_refl Hmoa) as (_ & _ & _ & X4 & _). exact X4. }
+  destruct (D (len_up (os_good_alloc_size (wadd size extra))) S8 Hsp S2 S6) as [HFd Ld].
+  pose proof (good_size_lt _ Hsw) as GL.
+  eapply (os_free_ex_fresh o od start (os_good_alloc_size (wadd size extra)) (wadd start extra) fsize sc o2 commit);
+    try eassumption; try lia.
+  - apply wrap_lt.
+  - (* start <= start + extra (no wrap) *)
+    rewrite ADDR_LIMIT_val in S6. pose proof (len_up_ge (os_good_alloc_size (wadd size extra))) as (G1 & _).
+    assert (Hea : extra < alignment \/ alignment = 0).
+    { destruct (N.eq_dec alignment 0) as [->|NZ]; [right; reflexivity|left].
+      unfold extra. destruct (align_up_props offset alignment ltac:(lia) ltac:(rewrite W64_val; lia) ltac:(rewrite W64_val; lia)) as (Q1 & Q2 & _).
+      rewrite wsub_small by lia. lia. }
+    destruct Hea as [Hea | ->].
+    + rewrite wadd_small by (rewrite W64_val; lia). lia.
+    + exfalso. (* alignment 0: align_up 0 PAGE = 0 < PAGE: the aligned allocation is refused *)
+      unfold os_alloc_aligned in AA. destruct (wadd size extra =? 0); [discriminate|].
+      unfold os_prim_alloc_aligned in AA. change (align_up 0 PAGE) with 0 in AA. cbn in AA. discriminate.
+Qed.
+
+End Inverse.
+
+(* ------------------------------------------------------------------------------------- *)
+(* C11 thread_data_released: the thread-metadata cache                                     *)
+(* ------------------------------------------------------------------------------------- *)
+Section ThreadData.
+Variable oracle : nat -> answer.
+
+Lemma sys_munmap_calls o a l : calls (fst (sys_munmap oracle o a l)) = calls o ++ [(KMunmap, a, l, 0)].
+Proof.
+  unfold sys_munmap. destruct (a_ok (oracle (os_seq o)) && (a mod PAGE =? 0) && (0 <? l)); cbn [fst]; rewrite calls_step; reflexivity.
+Qed.
+
+(* a cached block as mi_thread_data_zalloc stores it: obtained from _mi_os_alloc *)
+Definition td_entry_ok (e : N * memid) : Prop :=
+  0 < fst e /\ 0 < mem_size (snd e) /\ mem_kind (snd e) = MemOs /\ mem_base (snd e) = fst e.
+
+Definition td_cached (c : td_cache) : list (N * memid) :=
+  flat_map (fun x => match x with Some e => [e] | None => [] end) c.
+
+(* after _mi_thread_data_collect every slot is empty and exactly one munmap(base, size) was issued for every
+   cached block, in slot order *)
+Lemma thread_data_collect_spec : forall c o,
+  (forall e, In e (td_cached c) -> td_entry_ok e) ->
+  let r := thread_data_collect oracle o c in
+  snd r = map (fun _ => None) c /\
+  calls (fst r) = calls o ++ map (fun e => (KMunmap, fst e, mem_size (snd e), 0)) (td_cached c).
+Proof.
+  induction c as [|x c IH]; intros o H; cbn [thread_data_collect].
+  - cbv zeta. cbn. rewrite app_nil_r. split; reflexivity.
+  - destruct x as [[td m]|].
+    + assert (Hok : td_entry_ok (td, m)) by (apply H; cbn; left; reflexivity).
+      destruct Hok as (T1 & T2 & T3 & T4). cbn [fst snd] in *.
+      set (o1 := os_free oracle o td sizeof_mi_thread_data_t m).
+      assert (C1 : calls o1 = calls o ++ [(KMunmap, td, mem_size m, 0)]).
+      { unfold o1, os_free, os_free_ex. rewrite T3. cbn [memkind_is_os].
+        assert (Z : (mem_size m =? 0) = false) by (apply N.eqb_neq; lia). rewrite Z, T4, N.eqb_refl, andb_false_r.
+        unfold os_prim_free. assert (Z2 : ((td =? 0) || (mem_size m =? 0)) = false) by (apply orb_false_intro; apply N.eqb_neq; lia).
+        rewrite Z2. unfold prim_free. apply sys_munmap_calls. }
+      destruct (IH o1) as [I1 I2]; [intros e He; apply H; cbn; right; exact He|]. cbv zeta in *.
+      destruct (thread_data_collect oracle o1 c) as [o' rest']. cbn [fst snd] in *.
+      split; [cbn; rewrite I1; reflexivity|]. rewrite I2, C1, <- app_assoc. reflexivity.
+    + destruct (IH o) as [I1 I2]; [intros e He; apply H; exact He|]. cbv zeta in *.
+      destruct (thread_data_collect oracle o c) as [o' rest']. cbn [fst snd] in *.
+      split; [cbn; rewrite I1; reflexivity|exact I2].
+Qed.
+
+End ThreadData.
